@@ -11,6 +11,7 @@ It translates the *declarative / straight-line* parts of the code (DESIGN §4.1)
 A file is rewritten only if its content changed.  An extraction that no longer matches is printed as
 `BROKEN <what>` (the check then treats the dependent obligation as broken, DESIGN §5).
 """
+import hashlib
 import os
 import re
 import sys
@@ -576,9 +577,8 @@ def main():
     write_if_changed(os.path.join(OUT, "Tables.lean"), "\n".join(T) + "\n")
 
     # ---- Gen/Sites.lean
-    S = ["/- GENERATED by /verif/translator/translate.py from /repo — do not edit. -/", "namespace BC.Gen", "",
-         "/-- panic-capable sites: (crate, file, fn, kind, normalised text) -/",
-         "def sites : List (String × String × String × String × String) := ["]
+    # every site carries a 60-bit key (sha256 of its tuple) and the list is sorted by key, so that the Lean side can
+    # check `sites ⊆ reviewed` by a linear merge (a quadratic `contains` over string tuples cost minutes and 7 GB)
     uniq = []
     seen = set()
     for s in sites:
@@ -586,11 +586,27 @@ def main():
         if key not in seen:
             seen.add(key)
             uniq.append(key)
-    S.append(",\n".join("  (" + ", ".join(lean_str(x) for x in k) + ")" for k in uniq))
-    S.append("]")
-    S.append("")
-    S.append("end BC.Gen")
-    write_if_changed(os.path.join(OUT, "Sites.lean"), "\n".join(S) + "\n")
+
+    def hkey(k):
+        return int(hashlib.sha256("\x1f".join(k).encode()).hexdigest()[:15], 16)
+    uniq.sort(key=lambda k: (hkey(k), k))
+
+    def site_file(ns, name, doc):
+        S = ["/- GENERATED by /verif/translator/translate.py from /repo — do not edit. -/" if ns == "BC.Gen" else
+             "/- Panic-capable sites REVIEWED at the pinned commit (31aa1ea + the fix: commits); written by `translate.py --write-reviewed`\n"
+             "   after the review, committed, NOT regenerated by the checks.  See Proofs/Sites.lean and DESIGN §7 C20. -/",
+             f"namespace {ns}", "", "set_option maxRecDepth 1000000 in", doc,
+             f"def {name} : List (Nat × String × String × String × String × String) := ["]
+        S.append(",\n".join(f"  ({hkey(k)}, " + ", ".join(lean_str(x) for x in k) + ")" for k in uniq))
+        S.append("]")
+        S.append("")
+        S.append(f"end {ns}")
+        return "\n".join(S) + "\n"
+    write_if_changed(os.path.join(OUT, "Sites.lean"),
+                     site_file("BC.Gen", "sites", "/-- panic-capable sites, sorted by key: (key, crate, file, fn, kind, normalised text) -/"))
+    if "--write-reviewed" in sys.argv:
+        write_if_changed(os.path.join(os.path.dirname(OUT), "Sites", "Reviewed.lean"),
+                         site_file("BC.Sites", "reviewed", "/-- the reviewed sites, sorted by key -/"))
 
     for b in broken:
         print("BROKEN", b)
